@@ -22,7 +22,8 @@
 (***************************************************************************)
 EXTENDS Integers, Sequences, FiniteSets, TLC, Json, IOUtils
 
-CONSTANTS NProcs, Keys
+CONSTANTS NProcs, MaxKey
+Keys == 1..MaxKey
 Procs == 1..NProcs
 
 TraceLog == ndJsonDeserialize(IOEnv.VERIF_TRACE)
@@ -70,16 +71,21 @@ TStep(e) ==
   IN /\ a.op \in {"call", "unlock"}
      /\ StOK(a, st, ns)
      /\ st' = ns /\ ks' = nks /\ md' = nmd
-     /\ LET \* candidate sets per proc: strict subsets of its keys (it is parked, so something is
-            \* missing) that contain what it already held while parked (Mono)
+     /\ LET \* Candidate sets per parked proc.  Only *contended* keys (listed by another worker
+            \* too) matter: a key nobody else lists cannot violate Compat, cannot justify anybody's
+            \* blocking, and - left out of `got` - can still be added later, so Mono is unaffected.
+            \* What a proc already held while parked stays (Mono).
+            Base(p) == IF st[p] = "parked" THEN got[p] ELSE {}
+            Cont(p) == {k \in nks[p] : \E q \in Procs \ {p} : k \in nks[q]}
             Opts(p) == IF ns[p] = "parked"
-                       THEN {x \in SUBSET nks[p] : x # nks[p] /\ (st[p] = "parked" => got[p] \subseteq x)}
+                       THEN {Base(p) \cup y : y \in SUBSET (Cont(p) \ Base(p))}
                        ELSE {{}}
             RECURSIVE Prod(_)
             Prod(n) == IF n = 0 THEN {<<>>} ELSE {Append(g, o) : g \in Prod(n - 1), o \in Opts(n)}
         IN \E g \in Prod(NProcs) :
-             /\ Accept(ns, nks, nmd, g)
-             /\ got' = g
+             \* IF: Accept is a pure predicate; as a conjunct of the action TLC would fork a
+             \* successor computation at every disjunction inside it (2^|Keys| duplicates)
+             IF Accept(ns, nks, nmd, g) THEN got' = g ELSE FALSE
      \* reclaim: with nobody in a call the locker keeps nothing
      /\ (\A p \in Procs : ns[p] = "idle") => e.entries = 0
 
@@ -89,7 +95,7 @@ TMon(e) ==
      THEN /\ st[e.p] = "idle"
           /\ st' = [st EXCEPT ![e.p] = "held"] /\ ks' = [ks EXCEPT ![e.p] = SetOf(e.ks)]
           /\ md' = [md EXCEPT ![e.p] = e.m]
-          /\ Compat(st', ks', md', got)
+          /\ Compat(st', ks', md', got) = TRUE
      ELSE /\ st' = [st EXCEPT ![e.p] = "idle"] /\ ks' = [ks EXCEPT ![e.p] = {}] /\ md' = md
   /\ got' = got
 
